@@ -8,6 +8,9 @@ import lawmon as L
 import stats as S
 import vlib as V
 
+# disc / ball: u = r^2 resp. r^3 is uniform on [0,1]; P(u <= t) = t (centre), P(u > 1 - t) = t (shell)
+RADIAL_P = [1.1920928955078125e-7, 1e-6, 1e-5, 1e-4, 1e-3, 1e-5, 1e-4, 1e-3]
+RADIAL_NAME = ['u<=2^-23', 'u<=1e-6', 'u<=1e-5', 'u<=1e-4', 'u<=1e-3', 'u>1-1e-5', 'u>1-1e-4', 'u>1-1e-3']
 FAMS = ['unit_circle', 'unit_disc', 'unit_sphere', 'unit_ball']
 GRID = {'unit_circle': 'angle in 64 cells', 'unit_disc': 'r^2 x angle on 16x16', 'unit_sphere': 'z x longitude on 16x16', 'unit_ball': 'r^3 x z/r x longitude on 8x8x8'}
 
@@ -40,9 +43,10 @@ def _run(jobs_cases, binary, wd, tag):
             res.setdefault(e['key'], {'panic': e['msg']})
         if e.get('ev') != 'c12':
             continue
-        r = res.setdefault(e['key'], {'cells': None, 'samples': 0, 'nan': 0, 'norm_bad': 0, 'first_bad': None, 'max_norm_err_in_eps': 0.0, 'words': 0})
+        r = res.setdefault(e['key'], {'cells': None, 'radial': np.zeros(8), 'samples': 0, 'nan': 0, 'norm_bad': 0, 'first_bad': None, 'max_norm_err_in_eps': 0.0, 'words': 0})
         c = np.array(e['cells'], dtype=np.float64)
         r['cells'] = c if r['cells'] is None else r['cells'] + c
+        r['radial'] = r['radial'] + np.array(e.get('radial', [0] * 8), dtype=np.float64)
         for k in ('samples', 'nan', 'norm_bad', 'words'):
             r[k] += e[k]
         r['max_norm_err_in_eps'] = max(r['max_norm_err_in_eps'], e['max_norm_err_in_eps'])
@@ -59,6 +63,7 @@ def run(tier, seed):
     res = _run(_jobs(n, seed, 0, 1), binary, wd, 'geo')
     ver = V.Verdict('C12')
     flagged = {}
+    rflag = {}
     per = {}
     nstats = 0
     for key, r in res.items():
@@ -81,10 +86,30 @@ def run(tier, seed):
                     'max_norm_error_in_eps': r['max_norm_err_in_eps'], 'words_per_sample': r['words'] / max(1, r['samples']), 'stage1_flags': int(len(idx))}
         if len(idx):
             flagged[key] = [(int(i), int(dr[i])) for i in idx]
+        if fam in ('unit_disc', 'unit_ball'):
+            # radial thresholds (not disjoint from the grid: tested on their own); tolerance relative to the
+            # probability: the f32 coordinate lattice and the rounded acceptance test move these counts by < 2 %
+            rp = np.array(RADIAL_P)
+            rtol = rp * (2e-2 if ty == 'f32' else 1e-6)
+            pv2, dr2 = S.pvalue_two_sided(r['radial'], nfin, rp, rtol)
+            nstats += len(rp)
+            per[key]['radial_counts'] = dict(zip(RADIAL_NAME, r['radial'].tolist()))
+            per[key]['radial_expected'] = dict(zip(RADIAL_NAME, (rp * nfin).tolist()))
+            idx2 = np.nonzero(pv2 < S.ALPHA1)[0]
+            if len(idx2):
+                rflag[key] = [(int(i), int(dr2[i])) for i in idx2]
     confirmed = 0
-    if flagged:
-        jobs = [(m, jc) for m, jc in _jobs(4 * n, seed, 1, 2) if jc['key'] in flagged]
+    if flagged or rflag:
+        jobs = [(m, jc) for m, jc in _jobs(4 * n, seed, 1, 2) if jc['key'] in flagged or jc['key'] in rflag]
         r2 = _run(jobs, binary, wd, 'geo_s2')
+        for key, fl in rflag.items():
+            rr = r2[key]
+            ty = key[-4:-1]
+            for i, d in fl:
+                if S.pvalue_one_sided(rr['radial'][i], rr['samples'] - rr['nan'], RADIAL_P[i], RADIAL_P[i] * (2e-2 if ty == 'f32' else 1e-6), d) < S.ALPHA2:
+                    confirmed += 1
+                    ver.add({'fam': key[:-5], 'ty': ty, 'kind': 'law'}, {'sampler': key, 'radial_threshold': RADIAL_NAME[i], 'direction': d, 'stage2_count': float(rr['radial'][i]), 'n2': rr['samples'], 'expected': rr['samples'] * RADIAL_P[i]})
+                    break
         for key, fl in flagged.items():
             rr = r2[key]
             ncell = len(rr['cells'])
